@@ -1365,6 +1365,12 @@ class Evaluator(object):
         return self.ev(e, env)
 
     def ev_Dict(self, node, env):
+        if node.keys and node.keys[0] is None and all(k is not None for k in node.keys[1:]):
+            # {**d, k1: v1, ...}: a per-call copy of d with k1 ... set afterwards - dict(d) followed by the stores
+            cur = tm.call(tm.mk("builtin", "dict"), (self.ev(node.values[0], env),))
+            for k, v in zip(node.keys[1:], node.values[1:]):
+                cur = tm.upd(cur, "setitem", self.ev(k, env), self.ev(v, env))
+            return cur
         items = []
         for k, v in zip(node.keys, node.values):
             items.append(tm.tup((self.ev(k, env) if k is not None else tm.mk("star", tm.none()), self.ev(v, env))))
@@ -1380,6 +1386,10 @@ class Evaluator(object):
                 parts.append(self.ev(v.value, env))
             else:
                 parts.append(self.ev(v, env))
+        if parts and all(p_.op == "const" and isinstance(p_.a[0], (str, float, int)) and not isinstance(p_.a[0], bool) for p_ in parts) and not any(isinstance(v, ast.FormattedValue) and (v.format_spec is not None or v.conversion != -1) for v in node.values):
+            # every hole holds a constant (a literal, an unrolled loop value): the text itself.  Whole numbers are spelled
+            # without a fraction digit here ("@3" for 3 and for 3.0): consumers compare number-insensitively
+            return tm.const("".join(p_.a[0] if isinstance(p_.a[0], str) else ("%d" % p_.a[0] if float(p_.a[0]).is_integer() else repr(float(p_.a[0]))) for p_ in parts))
         return tm.mk("fstr", *parts)
 
     def ev_FormattedValue(self, node, env):
